@@ -2,6 +2,8 @@ package tv
 
 import (
 	"context"
+	"os"
+	"strings"
 
 	"github.com/specterops/dawgs/cypher/models/cypher"
 	"github.com/specterops/dawgs/cypher/models/pgsql/optimize"
@@ -41,6 +43,15 @@ func AllQueries(tier string, k int) []Query {
 		add(PatternFamily(3), 1, 3, 400)
 		add(TailFamily(), 1, 3, 400)
 		add(CorpusQueries(true), 1, 3, 200)
+	}
+	if only := os.Getenv("VERIF_ONLY_QUERY"); only != "" { // debugging aid: keep the queries containing this text
+		var kept []Query
+		for _, q := range out {
+			if strings.Contains(q.Text, only) {
+				kept = append(kept, q)
+			}
+		}
+		return kept
 	}
 	return out
 }
